@@ -67,11 +67,15 @@ def to_str(P, x, conv=-1, spec=None):
         if P.enum_is_str(x.cls) and P.find_class_member(x.cls, "__str__") is None:
             return f"{x.cls}.{x.name}"
         return f"{x.cls}.{x.name}"
+    if isinstance(x, (list, tuple, dict, SSeq, SMap, set, frozenset)):
+        return SStr(P.fresh_z("repr_of_container", StrS))
     if isinstance(x, SObj):
         cname = P.resolve_cls(x)
         m = P.find_method(cname, "__str__")
         if m is not None:
             return P.call_closure(m, [x], {})
+        if P.is_exception_class(cname) or cname in __import__("pyvc.interp", fromlist=["EXC_BUILTINS"]).EXC_BUILTINS:
+            return SStr(P.fresh_z("str_of_exception", StrS))
         h = P.attr_hooks.get((cname, "__str__"))
         if h:
             return h(P, x)
@@ -250,6 +254,8 @@ def binop(P, op, a, b):
             raise _pyexc(P, "TypeError", str(e))
         except ZeroDivisionError as e:
             raise _pyexc(P, "ZeroDivisionError", str(e))
+    if any(isinstance(x, Opaque) and str(x.tag).startswith("lenient:") for x in (a, b)):
+        return Opaque("lenient:binop")
     num = lambda x: isinstance(x, (int, SInt, bool, SBool))
     if num(a) and num(b):
         za, zb = zint(a), zint(b)
@@ -1291,6 +1297,9 @@ TYPE_NAMES = {"str", "int", "bool", "list", "tuple", "dict", "set", "frozenset",
 
 def builtin(P, name):
     from .interp import EXC_BUILTINS
+    hook = P.opaque_hooks.get("builtin:" + name)
+    if hook is not None:
+        return Builtin(name, hook)
     if name in BUILTINS:
         return Builtin(name, BUILTINS[name])
     if name in EXC_BUILTINS:
@@ -1347,6 +1356,8 @@ def external(P, full):
         return Builtin(full, lambda P_, a, k: SStr(ufn("dedent", StrS, StrS)(zstr(a[0]))) if is_sym(a[0]) else __import__("textwrap").dedent(a[0]))
     if full in ("ast", "re", "sys", "os", "json", "subprocess", "itertools", "contextlib", "inspect", "warnings", "shutil", "tempfile"):
         return ModuleRef(full)
+    if full in ("datetime.datetime", "datetime.timezone", "datetime.timedelta"):
+        return Opaque("lenient:" + full)
     if full.startswith("ast."):
         return ClassRef(full)
     if full.startswith("dataclasses."):
@@ -1373,12 +1384,19 @@ def run_context_manager(P, cm, body):
     if isinstance(cm, tuple) and cm and cm[0] == "gen_cm":
         _, f, args, kwargs = cm
         state = {"yielded": False}
+        base = len(P.frames)
 
         def handler(val):
             if state["yielded"]:
                 raise _pyexc(P, "RuntimeError", "generator didn't stop")
             state["yielded"] = True
-            body(val)
+            saved = P.frames[base:]
+            del P.frames[base:]
+            try:
+                body(val)
+            finally:
+                del P.frames[base:]
+                P.frames.extend(saved)
             return None
         P.call_closure(f, args, kwargs, yield_handler=handler)
         if not state["yielded"]:
